@@ -613,3 +613,7 @@ Lemma history_witness : exists n n',
 Proof. eexists. eexists. split; [vm_compute; reflexivity|]. split; [vm_compute; reflexivity|]. vm_compute. auto. Qed.
 Lemma phase_witness : exists s, rrun dedupf (ro_new (mkR 4 2 900)) [RAdd w_data; RGen 10 900; RGen 950 900] = Ok s /\ ro_phase s = PExploitation.
 Proof. eexists. split; vm_compute; reflexivity. Qed.
+
+(* the exact value of a neighbour's accumulated error exceeds f64::MAX after 1800 error distributions (df = 0.5, start 1/1024) *)
+Lemma error_overflow_witness : exists k, let e := distribute_times k (1, 1024) 8 1 in f64_max_bound * snd e < fst e.
+Proof. exists 1800%nat. vm_compute. reflexivity. Qed.
